@@ -28,7 +28,12 @@ def _policy(kind: str, p: P):
     w = p.lat(0) * 10  # window / interval, positive
     cap = p.cap(2)
     if kind == "token_bucket":
-        return TokenBucketPolicy(capacity=float(cap), refill_rate=1.0 / w, initial_tokens=float(p.x("v", 1) % (cap + 1)))
+        # refill rates that do not land on the nanosecond grid (7 per window, thirds) and fractional
+        # initial tokens: the wait for the next token is then truncated to whole nanoseconds, so the
+        # poll finds 0.99999.. tokens (the situation the policies' "zero wait -> 1 ns" guards exist for)
+        v = int(p.x("v", 1))
+        rate = (1.0, 7.0, 1.0 / 3.0, 2.5)[v % 4] / w
+        return TokenBucketPolicy(capacity=float(cap), refill_rate=rate, initial_tokens=(v % (2 * cap + 1)) / 2.0)
     if kind == "leaky_bucket":
         return LeakyBucketPolicy(leak_rate=1.0 / w)
     if kind == "sliding_window":
@@ -36,7 +41,8 @@ def _policy(kind: str, p: P):
     if kind == "fixed_window":
         return FixedWindowPolicy(requests_per_window=cap, window_size=w)
     if kind == "adaptive":
-        return AdaptivePolicy(initial_rate=2.0 / w, min_rate=0.5 / w, max_rate=20.0 / w, window_size=w)
+        k = (2.0, 7.0, 1.0 / 3.0)[int(p.x("v", 0)) % 3]
+        return AdaptivePolicy(initial_rate=k / w, min_rate=0.5 * k / w, max_rate=20.0 * k / w, window_size=w)
     raise KeyError(kind)
 
 
@@ -44,11 +50,15 @@ def _make_rle(kind):
     def build(seed, params):
         p = P(params, seed)
         sink = Replier("backend", p.lat(1)) if kind == "adaptive" else Recorder("sink")
-        rle = RateLimitedEntity("limiter", downstream=sink, policy=_policy(kind, p), queue_capacity=int(p.x("queue_capacity", 50)))
+        pol = _policy(kind, p)
+        rle = RateLimitedEntity("limiter", downstream=sink, policy=pol, queue_capacity=int(p.x("queue_capacity", 50)))
         arr = p.arrivals(8)
         sim = make_sim([rle, sink], p.end())
         _burst(sim, rle, arr)
-        return Scenario(sim, {"limiter": rle, "sink": sink}, "rate_limiter", True, len(arr))
+        # the waiting behaviour of a RateLimitedEntity is its policy's: part of the mechanism
+        return Scenario(
+            sim, {"limiter": rle, "sink": sink}, "rate_limiter", True, len(arr), extras={"mechanism_tag": type(pol).__name__}
+        )
 
     build.__name__ = f"rle_{kind}"
     build.__doc__ = f"Burst into a RateLimitedEntity with {kind}; queued requests are re-polled."
@@ -69,7 +79,9 @@ def fixed_window_round_window(seed, params):
     arr = p.arrivals(8)
     sim = make_sim([rle, sink], p.end())
     _burst(sim, rle, arr)
-    return Scenario(sim, {"limiter": rle, "sink": sink}, "rate_limiter", True, len(arr))
+    return Scenario(
+        sim, {"limiter": rle, "sink": sink}, "rate_limiter", True, len(arr), extras={"mechanism_tag": "FixedWindowPolicy"}
+    )
 
 
 @scenario("rate_limiter.distributed_shared_store", "rate_limiter")
